@@ -1,6 +1,6 @@
 """C12 — canonical encodings are bijective (structural clauses)."""
 from ..prims import *
-from ..guards import side_tokens, find_guard
+from ..guards import side_tokens, find_guard, tokens_of_atoms
 from ..baselines import baseline
 
 EXPLANATION = (
@@ -149,6 +149,62 @@ def closed_tag_dispatch(prog, rep):
                       "an unlisted tag value is accepted: values %s explicit, default path reaches a success value via %s" % ((r[0][1] if r else ""), f.describe_path(r[0][2]) if r else ""), site=f.loc())
 
 
+DECODER_NAME = re.compile(r"from_payload_bytes$|from_retained_bytes(_v\d)?$|from_canonical_bytes$|^decode_\w+_v\d$|^decode_canonical\w*$")
+NORMALISERS = r"::sort(_by|_by_key|_unstable|_unstable_by|_unstable_by_key)?$|::dedup(_by|_by_key)?$"
+CANON_ERR = re.compile(r"NonCanonical|NotCanonical|Unsorted|OutOfOrder|KeyOrder")
+
+
+def normalising_decoders(prog, rep):
+    """R7.  A decoder of a canonical-form codec that SORTS or DEDUPLICATES what it decoded turns several byte strings into one
+    value; that is only lawful if it also rejects the inputs it would have changed.  Every such decoder must, in its own
+    tree, either raise a canonicality error (a `NonCanonical*`-style variant) or compare a re-encoding with its input."""
+    n = 0
+    for f in sorted(prog.fns.values(), key=lambda f: f.id):
+        if f.is_closure() or not f.crate.startswith(("warp_core", "echo_")) or not DECODER_NAME.search(f.name):
+            continue
+        if "/tests/" in f.file or f.file.endswith("_tests.rs") or "::tests::" in f.id:
+            continue
+        # the decoder, its closures and the workspace helpers it reaches within three calls
+        seen_, frontier = {f.id}, [f.id]
+        for _d in range(3):
+            nxt = []
+            for x in frontier:
+                for y in prog.callees(x)[0]:
+                    if y not in seen_ and y.startswith(("warp_core", "echo_")):
+                        seen_.add(y)
+                        nxt.append(y)
+            frontier = nxt
+        fns = [prog.fns[i] for i in sorted(seen_)]
+        norm = [(g.name, g.block_line(b)) for g in fns for b in g.call_sites(NORMALISERS)]
+        if not norm:
+            continue
+        n += 1
+        gate = set()
+        for g in fns:
+            for bi, si, place, rv, line in g.assigns():
+                if rv["r"] == "agg" and rv.get("var") and CANON_ERR.search(rv["var"]):
+                    gate.add(rv["var"])
+            for bi, t in g.calls():
+                for o in t["args"]:
+                    if "k" in o and CANON_ERR.search(str(o.get("k", ""))):
+                        gate.add(str(o["k"]).rsplit("::", 1)[-1])
+        reenc = False
+        for g in [f] + [prog.fns[c] for c in prog.closures_in(f.id)]:
+            og = g.origins()
+            for c in comparisons(g):
+                ta, tb = tokens_of_atoms(og.of_operand(c[2], deep=True)), tokens_of_atoms(og.of_operand(c[3], deep=True))
+
+                def enc(t):
+                    return any(re.search(r"^c:(to_\w*bytes\w*|encode\w*|\w+_bytes_v\d)$", x) for x in t)
+                if (enc(ta) and "p:1" in tb) or (enc(tb) and "p:1" in ta):
+                    reenc = True
+        rep.check(bool(gate) or reenc, "C12.R7", "normalising-decoder:%s" % f.id.replace("warp_core::", ""),
+                  "normalises (%s) and rejects non-canonical input (%s)" % (norm[0][0], "re-encode compare" if reenc else (sorted(gate) or ["-"])[0]),
+                  "%s sorts/deduplicates what it decoded (%s:%s) but never rejects: an input in another order is accepted and normalised, so it does not re-encode to itself and two byte "
+                  "strings name one value" % (f.name, norm[0][0], norm[0][1]), site=f.loc())
+    rep.check(n >= 5, "C12.R7", "normalising-decoders:count", "%d normalising decoders examined" % n, "only %d normalising decoders found" % n, site="workspace")
+
+
 def run(ctx):
     rep = ctx.report
     prog = ctx.prog("trusted")
@@ -160,6 +216,8 @@ def run(ctx):
     rep.rule("C12.R6", "closed tag dispatch: every byte-tag test of the decoders leads, for unlisted values, only to a typed error (no normalisation of unknown tags)")
 
     closed_tag_dispatch(prog, rep)
+    rep.rule("C12.R7", "a decoder that sorts or deduplicates what it decoded also rejects the inputs it would have changed (canonicality error or re-encode compare)")
+    normalising_decoders(prog, rep)
     recs, tags = discover(prog)
     rep.check(len(recs) >= 25 and len(tags) >= 12, "C12.R1", "pairs:discovered", "%d record codec pairs, %d tag pairs" % (len(recs), len(tags)),
               "only %d record pairs / %d tag pairs discovered" % (len(recs), len(tags)), site="workspace")
@@ -264,8 +322,61 @@ def run(ctx):
         eqs = [c for c in comparisons(h) if c[1] in ("Eq", "eq") and any(a.kind == "param" for a in og.of_operand(c[2], deep=True)) and any(a.kind == "param" for a in og.of_operand(c[3], deep=True))]
         rep.check(len(eqs) == 1 and (not conv or bool(h.call_sites(conv))), "C12.R3", "float-ladder:%s:round-trip-equality" % helper, "one round-trip equality on the argument",
                   "%s has %d equality tests relating the argument to its narrowed form" % (helper, len(eqs)), site=h.loc())
-    for wr_ in ("write_half", "write_f32", "write_f64", "enc_int"):
-        rep.check(bool(ef.call_sites(wr_ + "$")), "C12.R3", "float-ladder:encoder:%s" % wr_, "encoder can emit %s" % wr_, "enc_float lost its %s rung" % wr_, site=ef.loc())
+    # the integer width ladder is range-exact: a narrowing cast `n as uK` of the value being encoded is only reached where a
+    # comparison has bounded n by uK::MAX.  A cast in an unbounded (wildcard) arm keeps the low bits of a value that does not
+    # fit: encode(v) then decodes to a different value.
+    W = {"u8": 8, "u16": 16, "u32": 32, "u64": 64, "u128": 128, "usize": 64, "i128": 128, "i64": 64}
+    n_casts = 0
+    for bi, si, place, rv, line in wm.assigns():
+        if rv["r"] != "cast" or rv.get("ck") != "IntToInt" or rv.get("ty") not in W:
+            continue
+        pl = op_place(rv["o"])
+        if pl is None:
+            continue
+        src_ty = wm.locals[pl[0]]
+        if src_ty not in W or W[rv["ty"]] >= W[src_ty] or ("param", 2) not in near_origins(wm, rv["o"]):
+            continue
+        n_casts += 1
+        limit = (1 << W[rv["ty"]]) - 1
+        bounded = False
+        for (bb, kind, a, b, res, cl) in comparisons(wm):
+            if kind in ("Le", "Lt") and const_int(b) is not None and ("param", 2) in near_origins(wm, a):
+                c = const_int(b) - (1 if kind == "Lt" else 0)
+            elif kind in ("Ge", "Gt") and const_int(a) is not None and ("param", 2) in near_origins(wm, b):
+                c = const_int(a) - (1 if kind == "Gt" else 0)
+            else:
+                continue
+            if c > limit:
+                continue
+            for sw in switch_edges_on_local(wm, res):
+                if wm.path([0], [bi], avoid_blocks=[sw["sw"]]) is None and bi not in wm.reachable([sw["false"]], avoid_edges=[(sw["sw"], sw["true"])], avoid_blocks=[sw["sw"]]):
+                    bounded = True
+        rep.check(bounded, "C12.R3", "cbor-width-ladder:cast-to-%s-is-range-bounded" % rv["ty"], "`n as %s` only where n <= %d was established" % (rv["ty"], limit),
+                  "write_major casts the %s value to %s (line %s) in an arm that does not bound it by %s::MAX: a value that does not fit is truncated and encode(v) decodes to a "
+                  "different value" % (src_ty, rv["ty"], line, rv["ty"]), site=wm.loc(line))
+    rep.check(n_casts >= 3, "C12.R3", "cbor-width-ladder:casts", "%d narrowing casts of the encoded value examined" % n_casts, "only %d narrowing casts found in write_major" % n_casts, site=wm.loc())
+    # NaN has ONE spelling: the writer collapses every NaN to the half-width quiet NaN; the reader's half-width arm must
+    # therefore test NaN-ness and reject the other NaN bit patterns (the wider arms reject NaN through can_fit_f16).
+    rf = prog.fn_opt(CA + "dec_value::read_f")
+    nan_w = ef.call_sites(r"f64>::is_nan$|f64::is_nan$|::is_nan$")
+    rep.check(bool(nan_w), "C12.R3", "nan:writer-collapses", "enc_float special-cases NaN", "enc_float no longer special-cases NaN", site=ef.loc())
+    half_arm_nan = False
+    isw = [x for x in tag_tests(dv, ("u8",)).items() if {"25", "26", "27"} <= x[1]["n"]]
+    for l, r in isw:
+        for (sb, tgt) in r["explicit"]:
+            t_ = dv.blocks[sb]["t"]
+            if t_["t"] == "sw" and any(v == "25" and tg == tgt for v, tg in t_["v"]):
+                others = [tg for v, tg in t_["v"] if tg != tgt] + [t_["ow"]]
+                region = dv.reachable([tgt], avoid_blocks=others)
+                for b in region:
+                    tt = dv.blocks[b]["t"]
+                    if tt["t"] == "call" and re.search(r"::is_nan$", dv.callee_of(tt) or ""):
+                        half_arm_nan = True
+    rep.check(half_arm_nan, "C12.R3", "nan:half-arm-rejects-other-spellings", "the half-width decode arm tests NaN-ness",
+              "the half-width float arm of dec_value never tests for NaN: every NaN bit pattern (f9 7e 01, f9 fe 00, ..) is accepted although the writer emits only f9 7e 00 — an "
+              "accepted byte string that re-encodes differently", site=dv.loc())
+    for wr_ in ("write_half", "write_f32", "write_f64", "(enc_int|write_major)"):
+        rep.check(bool(ef.call_sites(wr_ + "$")), "C12.R3", "float-ladder:encoder:%s" % wr_.replace("(enc_int|write_major)", "enc_int"), "encoder can emit %s" % wr_, "enc_float lost its %s rung" % wr_, site=ef.loc())
     rep.check(len(comparisons(ef)) >= 3, "C12.R3", "float-ladder:encoder:round-trip-tests", "encoder tests exact representability before choosing a width (%d comparisons)" % len(comparisons(ef)),
               "enc_float no longer compares round-tripped values", site=ef.loc())
 
@@ -277,13 +388,23 @@ def run(ctx):
     live = constructed_variants(tree(prog, [dval])[0], CE)
     for v in ("Incomplete", "Trailing", "Tag", "Indefinite", "NonCanonicalInt", "NonCanonicalFloat", "FloatShouldBeInt", "MapKeyOrder", "MapKeyDuplicate", "Decode"):
         rep.check(v in live, "C12.R4", "cbor:live:%s" % v, "rejection live", "canonical CBOR decoder no longer rejects with CanonError::%s" % v, site=dval.loc())
+    dv_tree = [g for g in tree(prog, [dv], stop=lambda i: not i.startswith(CA))[0] if g.id.startswith(CA)]
     for variant in ("MapKeyDuplicate", "MapKeyOrder"):
-        sites = agg_blocks(dv, CE, variant)
-        gated = False
+        sites, gated = [], False
         from ..guards import comparison_controls
-        for c in comparisons(dv):
-            if comparison_controls(dv, c, sites, success_blocks(dv)):
-                gated = True
+        # the gate may live in dec_value or in a helper of the module whose Result dec_value propagates with `?`
+        for g in dv_tree:
+            gs = agg_blocks(g, CE, variant)
+            if not gs:
+                continue
+            sites += gs
+            for c in comparisons(g):
+                if comparison_controls(g, c, gs, success_blocks(g)):
+                    gated = True
+            if g.id != dv.id:
+                calls_ = [b for b in dv.call_sites(re.escape(g.id) + "$")]
+                if not calls_ or not all(result_inspected(dv, b)[0] for b in calls_):
+                    gated = False
         rep.check(bool(sites) and gated, "C12.R4", "cbor:%s-gated" % variant, "a comparison of encoded key bytes gates %s" % variant, "%s is not gated by a key comparison" % variant, site=dv.loc())
     n_fin = 0
     for adt_path, w, r in recs:
